@@ -264,7 +264,7 @@ Proof. rewrite map_app. reflexivity. Qed.
 
 Lemma send_ok_open prof s : send_guard prof s ROk = true -> closed_flags s -> False.
 Proof.
-  unfold send_guard, closed_flags. intros G [Hc Hs]. destruct (prof =? 0).
+  unfold send_guard, closed_flags. intros G [Hc Hs]. destruct ((prof =? 0) || (prof =? 2)).
   - apply andb_prop in G as [G _]. destruct (c_sendErr s); [discriminate|congruence].
   - rewrite Hc in G. discriminate.
 Qed.
